@@ -3,6 +3,7 @@
    interleaving transition system ([init true] = v1, [init false] = v2); [run (init e) l] ranges
    over every schedule of plugin answers, store flushes, engine steps and the instant of the stop. *)
 From Verif Require Import Stop.Stop Stop.StopProofs.
+From Verif Require Stop.Events Stop.Check Stop.CheckProofs Stop.GenStop Stop.GenStopProofs.
 
 Theorem C06_graceful_stop_drains_v1 : forall l s, run (init true) l = Some s -> ret_ok s = true ->
   pack s = stored s /\ stored s = eack s /\ eack s = handled s /\ handled s = taken s /\
@@ -38,6 +39,53 @@ Theorem C06_stop_completes_partial : forall e s, (exists l, run (init e) l = Som
   exists l s', run s l = Some s' /\ ret_ok s' = true.
 Proof. exact stop_completes. Qed.
 Print Assumptions C06_stop_completes_partial.
+
+(* ---- the tie between model, acceptor and monitor ---- *)
+(* (ii) every log the acceptor accepts satisfies the log part of Mon_C06: at the moment StopAndWait
+   returned nil the pipeline was drained *)
+Theorem C06_accepted_log_satisfies_mon : forall c l pre snap rest,
+  Check.accept c l = true -> Check.split_at_ret l [] = Some (pre, Events.RNil, snap, rest) ->
+  Check.drained (Check.c_v1 c) (Check.c_slow c) (Check.c_nsrc c) snap (Check.track c pre) = true.
+Proof. exact CheckProofs.accepted_log_satisfies_mon_c06. Qed.
+Print Assumptions C06_accepted_log_satisfies_mon.
+
+Theorem C06_accepted_healthy_log_passes_monitor : forall c l pre snap rest,
+  Check.accept c l = true -> Check.split_at_ret l [] = Some (pre, Events.RNil, snap, rest) ->
+  Check.mon_c06 c true false l = true.
+Proof. exact CheckProofs.accepted_healthy_log_passes_mon_c06. Qed.
+Print Assumptions C06_accepted_healthy_log_passes_monitor.
+
+(* (i), protocol half: the generative model (1 source x M destinations, both engines; GenStop.v) emits
+   the event vocabulary of the observed logs; its protocol state is a reachable state of Stop.v, and it
+   emits "StopAndWait returned nil" only from a drained state in which every destination confirmed
+   everything that was read *)
+Theorem C06_gen_protocol_state_reachable : forall e m s,
+  GenStopProofs.greach e m s -> exists l, run (init e) l = Some (GenStop.base s).
+Proof. exact GenStopProofs.base_reachable. Qed.
+Print Assumptions C06_gen_protocol_state_reachable.
+
+Theorem C06_gen_return_guard : forall e m s s', GenStopProofs.greach e m s ->
+  GenStop.gstep s GenStop.GReturn = Some s' ->
+  GenStop.evs s' = Events.ERet Events.KStopWait Events.RNil 1 [(1, stored (GenStop.base s))] :: GenStop.evs s /\
+  drained (GenStop.base s') /\ stored (GenStop.base s) = pack (GenStop.base s') /\
+  forall i, i < m -> nth i (GenStop.cc s') 0 = taken (GenStop.base s') /\
+                     nth i (GenStop.wc s') 0 = taken (GenStop.base s').
+Proof. exact GenStopProofs.gen_return_guard. Qed.
+Print Assumptions C06_gen_return_guard.
+
+(* tests, not theorems: traces of the generative model run through the executable acceptor and monitor *)
+Example C06_gen_trace_accepted_v1 :
+  match GenStop.grun (GenStop.ginit true 2)
+    [GenStop.GEmit; GenStop.GEmit; GenStop.GRead; GenStop.GRead; GenStop.GWrite 0; GenStop.GWrite 1; GenStop.GConf 0;
+     GenStop.GConf 1; GenStop.GHandled; GenStop.GEAck; GenStop.GStopCall; GenStop.GStopSrc; GenStop.GLoopEnd;
+     GenStop.GWrite 1; GenStop.GWrite 0; GenStop.GConf 1; GenStop.GConf 0; GenStop.GHandled; GenStop.GEAck;
+     GenStop.GTearBegin; GenStop.GTearFlushed; GenStop.GDeliver; GenStop.GDeliver; GenStop.GTearDrained;
+     GenStop.GDownTear; GenStop.GCleanup; GenStop.GReturn] with
+  | Some s => Check.accept (Check.mkC true false 1 2) (GenStop.trace s)
+              && Check.mon_c06 (Check.mkC true false 1 2) true false (GenStop.trace s)
+  | None => false
+  end = true.
+Proof. vm_compute. reflexivity. Qed.
 
 (* non-vacuity: v1, three records, the stop arrives while one record is unread and one unconfirmed *)
 Example C06_nonvacuous_v1 :
